@@ -35,3 +35,5 @@ def run(ctx):
     from . import round3 as R3
     R3.r17_10_source_text_untouched(ctx)
     R3.r12_7_source_independence(ctx, 'R17.11')
+    from . import memo_rules as M
+    M.memo_sound(ctx, 'R17.M')
